@@ -33,11 +33,11 @@ def gtype_to_python(text):
     return eval(text, {"__builtins__": {}}, env)
 
 
-def _changes(old_sdl, new_sdl):
+def _changes(old_sdl, new_sdl, min_severity=None):
     from py_gql import build_schema
     from py_gql.schema.differ import diff_schema
     old, new = build_schema(old_sdl), build_schema(new_sdl)
-    return [(type(c).__name__, c.message, int(c.severity)) for c in diff_schema(old, new)]
+    return [(type(c).__name__, c.message, int(c.severity)) for c in diff_schema(old, new, min_severity=min_severity)]
 
 
 def permute_definitions(sdl, rnd):
@@ -57,6 +57,14 @@ MULTI_NEW = ("type Query { u: U e: E a: Int f(p: Int): Int } type A implements I
              "input In { a: Int } " + _IFACES + "union U = A enum E { V1 } directive @d(k: Int) on FIELD")
 _Q = "type Query { a: Int } "
 EXTRA_PAIRS = [
+    # a type that changes its KIND (every pair of kinds that share a shape): reported, never a crash
+    ("object-becomes-interface", "type Query { a: A } type A { x: Int }", "type Query { a: A } interface A { x: Int } type B implements A { x: Int }", "A", ["{ a { x } }"]),
+    ("interface-becomes-object", "type Query { a: A } interface A { x: Int } type B implements A { x: Int }", "type Query { a: A } type A { x: Int } type B { x: Int }", "A",
+     ["{ a { ... on B { x } } }"]),
+    ("object-becomes-union", "type Query { a: A } type A { x: Int } type B { x: Int }", "type Query { a: A } union A = B type B { x: Int }", "A", ["{ a { x } }"]),
+    ("input-becomes-scalar", "type Query { f(i: I): Int } input I { a: Int }", "type Query { f(i: I): Int } scalar I", "I", ["{ f(i: {a: 1}) }"]),
+    ("enum-becomes-scalar", "type Query { e: E } enum E { A }", "type Query { e: E } scalar E", "E", ["{ e }"]),
+    ("scalar-becomes-enum", "type Query { e(x: E): Int } scalar E", "type Query { e(x: E): Int } enum E { A }", "E", ["{ e(x: 1) }"]),
     # a default removed from a NON-NULL input: the input becomes required
     ("nonnull-argument-default-removed", "type Query { f(a: Int! = 1): Int }", "type Query { f(a: Int!): Int }", "a", ["{ f }", "query ($v: Int) { f(a: $v) }"]),
     ("nonnull-input-field-default-removed", "type Query { f(i: I): Int } input I { a: Int! = 1 }", "type Query { f(i: I): Int } input I { a: Int! }", "a", ["{ f(i: {}) }"]),
@@ -118,6 +126,19 @@ def check(tier, seed):
             except Exception as e:
                 run.violation("diff_schema:never-raises", "diff_schema raised %r" % (e,), dict(w, exc=type(e).__name__), True)
                 continue
+            # min_severity is a filter on the same report: nothing else disappears, nothing appears
+            for sev in SchemaChangeSeverity:
+                n += 1
+                try:
+                    filtered = _changes(a, b, min_severity=sev)
+                except Exception as e:
+                    run.violation("diff_schema:never-raises", "diff_schema(min_severity=%s) raised %r" % (sev, e), dict(w, exc=type(e).__name__), True)
+                    continue
+                want_f = [c for c in ch if c[2] >= int(sev)]
+                if sorted(filtered) != sorted(want_f):
+                    run.violation("diff_schema:min-severity-is-a-filter", "edit %s (%s): min_severity=%s gives %r, the unfiltered report restricted to that severity is %r"
+                                  % (label, direction, sev.name if hasattr(sev, "name") else sev, [m for _c, m, _s in filtered][:3], [m for _c, m, _s in want_f][:3]),
+                                  dict(w, min_severity=str(sev)), True)
             if not any(element in msg for _c, msg, _s in ch):
                 run.violation("diff_schema:every-edit-reported", "edit %s (%s) of %r: no reported change names it; changes: %r"
                               % (label, direction, element, [m for _c, m, _s in ch][:4]), dict(w, changes=ch[:6]), True)
@@ -153,6 +174,17 @@ def check(tier, seed):
         except Exception as e:
             run.violation("diff_schema:never-raises", "diff_schema raised %r" % (e,), dict(w, exc=type(e).__name__), True)
             continue
+        for sev in SchemaChangeSeverity:
+            n += 1
+            try:
+                filtered = _changes(a, b, min_severity=sev)
+            except Exception as e:
+                run.violation("diff_schema:never-raises", "diff_schema(min_severity=%s) raised %r" % (sev, e), dict(w, exc=type(e).__name__), True)
+                continue
+            want_f = [c for c in ch if c[2] >= int(sev)]
+            if sorted(filtered) != sorted(want_f):
+                run.violation("diff_schema:min-severity-is-a-filter", "edit %s: min_severity=%s gives %r, the unfiltered report restricted to that severity is %r"
+                              % (label, getattr(sev, "name", sev), [m for _c, m, _s in filtered][:3], [m for _c, m, _s in want_f][:3]), dict(w, min_severity=str(sev)), True)
         if not any(element in msg for _c, msg, _s in ch):
             run.violation("diff_schema:every-edit-reported", "edit %s of %r: no reported change names it; changes: %r" % (label, element, [m for _c, m, _s in ch][:4]),
                           dict(w, changes=ch[:6]), True)
